@@ -405,26 +405,27 @@ pub fn check_report(ps: &ProblemSpec, st: &SettingsSpec, out: &SolveOut, dropped
 }
 
 /// Did the solve leave the range in which plain double arithmetic can keep the solver's invariants?
-/// Squares of magnitudes beyond 1e150 overflow, squares below 1e-150 underflow to zero: norms, cone
-/// margins and step lengths are then inf / NaN / 0 by construction, and what the solver reports about
-/// such an iterate is not judged (stated as an assumption in the evidence of C02, C03).
+/// Squares of magnitudes beyond 1e154 overflow and products with data entries do so earlier (an iterate of
+/// 1e147 times a cost entry of 1e7 already gives an infinite residual norm); squares below 1e-154 underflow
+/// to zero: norms, cone margins and step lengths are then inf / NaN / 0 by construction.  Solves whose
+/// observed iterates leave [1e-100, 1e100] are not judged (stated as an assumption in the evidence of C02, C03).
 pub fn extreme_regime(out: &SolveOut) -> Option<&'static str> {
     for r in &out.trace {
         let big = r.x.iter().chain(&r.s).chain(&r.z).chain([r.tau, r.kappa, r.mu].iter()).fold(0.0f64, |m, v| if v.is_finite() { m.max(v.abs()) } else { f64::INFINITY });
-        if big > 1e150 {
-            return Some("overflow-regime(>1e150)");
+        if big > 1e100 {
+            return Some("overflow-regime(>1e100)");
         }
     }
     if let Some(r) = out.trace.last() {
-        if r.mu.abs() < 1e-150 || r.tau.max(r.kappa) < 1e-150 {
-            return Some("underflow-regime(<1e-150)");
+        if r.mu.abs() < 1e-100 || r.tau.max(r.kappa) < 1e-100 {
+            return Some("underflow-regime(<1e-100)");
         }
     }
     let infeas = matches!(out.status, SolverStatus::PrimalInfeasible | SolverStatus::DualInfeasible | SolverStatus::AlmostPrimalInfeasible | SolverStatus::AlmostDualInfeasible);
     if infeas {
         let cert = out.x.iter().chain(&out.s).chain(&out.z).fold(0.0f64, |m, v| m.max(v.abs()));
-        if cert < 1e-150 {
-            return Some("underflow-regime(<1e-150)");
+        if cert < 1e-100 {
+            return Some("underflow-regime(<1e-100)");
         }
     }
     None
